@@ -76,7 +76,7 @@ static std::vector<SetProfile> build_set_profiles() {
     p.keyDomMin = 600; p.keyDomMax = 2400; p.bulkMax = 1024; p.meanLen = 14; p.maxLen = 60;
     p.w[S_BULK] = 40; p.w[S_FROM_VECTOR] = 10; p.w[S_FIND] = 40; p.w[S_BOUNDS] = 40; p.w[S_FIND_HETERO] = 20; p.w[S_INSERT_HINT] = 50; p.w[S_EMPLACE_HINT] = 30;
     p.w[S_INSERT_COPY] = 25; p.w[S_EMPLACE] = 20; p.w[S_ERASE_KEY] = 25; p.w[S_MERGE] = 6; p.w[S_ERASE_RANGE] = 8; p.w[S_ERASE_LOOP] = 0; p.w[S_DRAIN] = 0;
-    p.w[S_RELOCATE] = 0; p.w[S_GROW_PAST_N] = 6; p.w[S_INSERT_RANGE] = 10;
+    p.w[S_RELOCATE] = 0; p.w[S_GROW_PAST_N] = 6; p.w[S_INSERT_RANGE] = 10; p.w[S_EXTRACT_INSERT] = 25;
     ps.push_back(p);
   }
   {
@@ -412,6 +412,11 @@ struct SRunner {
         io.key = pick_key();
         io.toSelf = !w || ((op.n >> 4) & 3) == 0;
         io.pos = op.b;
+        if (io.toSelf && (io.variant & 4) && t.flavour == SF_FLAT && ((op.b >> 20) & 1)) {
+          // the correct hint for putting the extracted element back: its rank among the remaining elements
+          auto mi = s.model.find(io.key);
+          if (mi != s.model.end()) io.pos = (size_t)model_index(s.model, mi);
+        }
         SSlot &tgt = io.toSelf ? s : *w;
         if (!io.toSelf) {
           auto mi = s.model.find(io.key);
@@ -569,6 +574,12 @@ struct SRunner {
       snprintf(m, sizeof m, "unexpected exception (%s%s%s) from %s", outcome_name(res.outcome), res.exWhat.empty() ? "" : ": ", res.exWhat.c_str(), set_op_name(io.kind));
       viol(VK_MODEL, base, m);
     }
+    // ---- an element life-cycle violation inside this call: is the visible content wrong as well? (attribution refinement)
+    if (G.viol.set() && G.viol.kind == VK_ELEM && G.viol.opIndex == idx && res.outcome == OUT_RETURNED) {
+      std::vector<Val> fwd, rev;
+      std::string err;
+      if (!t.walk(s.obj, fwd, rev, err)) G.viol.props |= base;
+    }
     // ---- after an injected fault: basic guarantee
     if (!G.viol.set() && threwFault) {
       if (s_is_ctor(io.kind)) {
@@ -648,7 +659,7 @@ struct SRunner {
     if (!G.viol.set()) g_heap.check_canaries();
     // ---- C19 comparator budgets
     if (!G.viol.set() && res.outcome == OUT_RETURNED) {
-      static const char *callName[] = {"find", "contains", "count", "lower_bound", "upper_bound", "equal_range", "insert", "emplace", "erase(key)", "hinted insert"};
+      static const char *callName[] = {"find", "contains", "count", "lower_bound", "upper_bound", "equal_range", "insert", "emplace", "erase(key)", "hinted insert", "hinted node insert"};
       for (const CmpUse &u : res.cmp) {
         if (t.flavour == SF_FLAT) {
           if (u.call <= 8) {
@@ -660,9 +671,10 @@ struct SRunner {
               break;
             }
             cell(19, s.typeIdx, u.call, n0 < 2 ? 0 : n0 < 17 ? 1 : n0 < 129 ? 2 : n0 < 1025 ? 3 : 4, u.calls < 63 ? u.calls : 63);
-          } else if (u.call == 9) {
+          } else if (u.call == 9 || u.call == 10) {
             bool correct = (size_t)model_index_before(io) == io.pos;
-            if (correct && u.calls > 16) {
+            if (u.call == 10 && !(io.toSelf && (io.variant & 4))) correct = false;  // hinted node insertion is budgeted when it goes back into the same set
+            if (correct && u.calls > 8) {  // the implementation needs at most 4; log2(n)+2 exceeds 8 from n = 128 on
               char m[200];
               snprintf(m, sizeof m, "insertion with a correct hint used %u comparator calls on a set of %zu elements (must be bounded by a constant)", u.calls, n0);
               G.violate(VK_CMPCOUNT, P(19), m);
@@ -832,6 +844,7 @@ struct SRunner {
         if (!found) break;
         Val v = *mi;
         if (res.nodeVal != v) { viol(VK_MODEL, base, "extract(key) returned a node owning another element"); return; }
+        lbBefore = model_index(m, mi);
         m.erase(mi);
         SSlot &tgt = io.toSelf ? s : *w;
         auto mr = tgt.model.insert(v);
